@@ -17,12 +17,13 @@ LEVEL_TEXT = ("Coq theorems over a Gallina model of the probing registry (Probe,
               "probe query for it (the count restarts where a conflict restarts the probes); activation only 750 ms after "
               "the probe's start, 'probing done' only after activation; on schedules that are never late the exact "
               "timetable T, T+250, T+500, active at T+750 < registration + 1000; for every history of the daemon model "
-              "without response datagrams and interface toggles the probe queries for a name on an interface are 250 ms "
+              "without response datagrams, interface toggles and unregister calls the probe queries for a name on an interface are 250 ms "
               "apart on the wire (C07_wire_probe_spacing); an announcement is built only when all records are active, a "
               "question is answered only for announced services; constants and comparison directions regenerated from "
               "the Rust on every run. The model is compared iteration by iteration with the real daemon thread in the "
               "simulated world, and the statement is executed as a monitor (chk_C07) on the implementation's packets, "
-              "events and requested wake-ups; the monitor starts the count afresh when an interface disappears")
+              "events and requested wake-ups; the monitor starts the count afresh when an interface disappears and, for its "
+              "instance name, when a service is unregistered")
 TECHNIQUE = ("machine-checked proof in Coq (invariants of the probe state machine over all operation sequences) + "
              "model/implementation correspondence on simulated-daemon histories")
 LEVELS = "K6 (real ServiceDaemon thread in the simulated world: register / queries / conflicts / unregister histories)"
@@ -56,7 +57,8 @@ PARTIAL = ("Names with non-ASCII cased letters are outside the model (Base/Bytes
            "service map with the Unicode to_lowercase): they are covered by a model-free family judged on the trace in exactly "
            "the registered spelling (liveness only: three probes 250 ms apart, two announcements one second apart within 1 s of "
            "the registration, questions answered), not by the correspondence. "
-           "Proved for all histories of the daemon model without response datagrams and interface toggles: probe spacing on "
+           "Proved for all histories of the daemon model without response datagrams, interface toggles and (since fix d685fcf) "
+           "unregister calls: probe spacing on "
            "the wire. Proved for every state of the daemon model, hence over all histories incl. response datagrams and "
            "interface toggles: every packet register_service sends, every announcement add_interface makes and every "
            "response the probing handler sends when probes complete has its RegisterResend queued for now + 1000 "
